@@ -302,7 +302,7 @@ func specHeaderOK(h Header, s State) bool {
 //@   assigns nothing
 
 //@ func CheckHeader
-//@   props C03 C05
+//@   props C03 C05 C15
 //@   requires [dom] h.OpCode < 16
 //@   ensures  [iff] (result == nil) == specHeaderOK(h, s)
 //@   ensures  [name-op]   result == ErrProtocolOpCodeReserved ==> ruleReservedOp(h)
@@ -339,7 +339,7 @@ func lemmaCloseRoundTrip(code StatusCode, reason string) bool {
 }
 
 //@ func CheckCloseFrameData
-//@   props C03 C08
+//@   props C03 C08 C15
 //@   ensures [accept] codeAccept(code) ==> ((result == nil) == validUTF8(reason))
 //@   ensures [refuse] !codeAccept(code) && !codeOpen(code) ==> result != nil
 //@   ensures [utf8]   result == nil ==> validUTF8(reason)
@@ -363,7 +363,7 @@ func lemmaCloseRoundTrip(code StatusCode, reason string) bool {
 //@   assigns nothing
 
 //@ func ParseCloseFrameData
-//@   props C03 C17
+//@   props C03 C17 C15
 //@   ensures [short] len(payload) < 2 ==> code == 0 && len(reason) == 0
 //@   ensures [code]  len(payload) >= 2 ==> uint16(code) == specBE16(payload[0], payload[1])
 //@   ensures [len]   len(payload) >= 2 ==> len(reason) == len(payload)-2
@@ -372,7 +372,7 @@ func lemmaCloseRoundTrip(code StatusCode, reason string) bool {
 //@   assigns nothing
 
 //@ func ParseCloseFrameDataUnsafe
-//@   props C03
+//@   props C03 C15
 //@   ensures [short] len(payload) < 2 ==> code == 0 && len(reason) == 0
 //@   ensures [code]  len(payload) >= 2 ==> uint16(code) == specBE16(payload[0], payload[1])
 //@   ensures [len]   len(payload) >= 2 ==> len(reason) == len(payload)-2
@@ -475,7 +475,7 @@ func specMask64(m [4]byte) uint64 {
 //@   loop 4 decreases n - i
 
 //@ func WriteFrame
-//@   props C01 C06
+//@   props C01 C06 C16
 //@   requires [valid] validHdr(f.Header) && outOK(w) && len(f.Payload) <= 1<<47
 //@   ensures  [calls] result == nil ==> outCalls(w) == old(outCalls(w))+2
 //@   ensures  [len]   result == nil ==> outLen(w) == old(outLen(w))+specHdrLen(f.Header.Length, f.Header.Masked)+len(f.Payload)
@@ -511,7 +511,7 @@ func sameSlice(a, b []byte) bool {
 //@   assigns bytes(f.Payload)
 
 //@ func UnmaskFrameInPlace
-//@   props C02
+//@   props C02 C15
 //@   ensures [hdr]  sameHdrExceptMask(result.Header, f.Header) && !result.Header.Masked && result.Header.Mask == [4]byte{}
 //@   ensures [same] sameSlice(result.Payload, f.Payload)
 //@   ensures [xor]  forall(0, len(f.Payload), func(k int) bool { return f.Payload[k] == old(f.Payload[k])^f.Header.Mask[VMaskIdx(0, k)] })
@@ -764,7 +764,7 @@ func specHeaderAt(line []byte, c, ks, ke, vs, ve int) bool {
 // Subprotocol selection (C17, C09): the returned string never shares memory with the header
 // bytes it was cut from (those live in a pooled read buffer).
 //@ func btsSelectProtocol
-//@   props C17 C09
+//@   props C17 C09 C15
 //@   ensures [copy] freshStr(ret)
 //@   ensures [none] !ok ==> len(ret) == 0
 //@   assigns nothing
@@ -933,7 +933,7 @@ func ufParamsBuf(p httphead.Parameters) []byte { return nil }
 // The matcher inside matchSelectedExtensions: the option it appends carries the client's own name
 // and a copy of the parameters in fresh memory, never the slices of the header being scanned.
 //@ func matchSelectedExtensions$1
-//@   props C17
+//@   props C17 C15
 //@   ensures [own]  ok ==> len(received) == old(len(received))+1 && fresh(ufParamsBuf(received[len(received)-1].Parameters))
 //@   ensures [keep] !ok ==> len(received) == old(len(received))
 //@   loop 1 invariant [keep] len(received) == old(len(received))
@@ -957,7 +957,7 @@ func ufParamsBuf(p httphead.Parameters) []byte { return nil }
 //@   assigns nothing
 
 //@ func Dialer.Upgrade
-//@   props C10 C16 C17
+//@   props C10 C16 C17 C15
 //@   requires [conn] conn != nil && u != nil
 //@   ensures  [lineerr]  err == nil ==> forall(old(linePos(ufReaderOf(io.Reader(conn)))), linePos(ufReaderOf(io.Reader(conn))), func(i int) bool { return ufLineErr(ufReaderOf(io.Reader(conn)), i) == nil })
 //@   ensures  [handover] err == nil ==> (br == nil) == (ufBuffered(ufReaderOf(io.Reader(conn)), linePos(ufReaderOf(io.Reader(conn)))) == 0) && (br != nil ==> br == ufReaderOf(io.Reader(conn)))
@@ -1028,7 +1028,7 @@ func ufWriterOf(w io.Writer) *bufio.Writer { return nil }
 //@   assigns nothing
 
 //@ func Upgrader.Upgrade
-//@   props C09 C16
+//@   props C09 C16 C15 C17
 //@   callsite httpWriteResponseUpgrade requires [allseen] headerSeen == 31 && err == nil && len(nonce) == 24
 //@   callsite httpWriteResponseError requires [rejhdr] dynTypeIs(err, "*ws.ConnectionRejectedError") ==> header[1] == err.(*ConnectionRejectedError).header
 //@   callsite httpWriteResponseError requires [usrhdr] header[0] == u.Header
@@ -1087,7 +1087,7 @@ func ufHijacked(w http.ResponseWriter) *bufio.ReadWriter { return nil }
 //@   assigns nothing
 
 //@ func HTTPUpgrader.Upgrade
-//@   props C09
+//@   props C09 C15
 //@   callsite httpWriteResponseError requires [rejhdr] dynTypeIs(err, "*ws.ConnectionRejectedError") ==> header[1] == err.(*ConnectionRejectedError).header
 //@   callsite httpWriteResponseError requires [usrhdr] header[0] == HandshakeHeader(HandshakeHeaderHTTP(u.Header)) || u.Header == nil
 //@   requires [r] r != nil && w != nil
